@@ -445,6 +445,7 @@ func (p *processor) Propagate(event *Event) {
 	// event of the stream (processSequence) would take events while the frame that called the
 	// action still has its own event in hand: they would overtake it and be committed out of order.
 	if ok, _ := p.doActions(event); ok {
+		verifTrace("p.out", uint64(event.Offset), uint64(p.id))
 		event.stage = eventStageOutput
 		p.router.Out(event)
 	}
